@@ -5,7 +5,7 @@ package main
 func init() {
 	register(&PropSpec{
 		ID: "C10",
-		Explanation: "Decides, for every call into the pluggable storage from pkg/op (all invoke-mode calls on the interfaces declared in storage.go, keys.go, discovery.go, verifier_jwt_profile.go - found through go/types, not by name): the call's error result is consumed (never an expression statement, never assigned to _, never lost in go/defer), and in no path state that carries fail(<that call>) a grant sink is reachable in the same function: no token-creating call, no success document written, no Active=true store, no success return of a status-returning function. Error edges classified by errors.Is against a sentinel (ErrInvalidRefreshToken in revocation) are explicit decisions and accepted; two reviewed fall-backs are listed with reasons. Together with C09's respond-once/stop-after-error typestate (the error responder terminates the handler) this is the universally quantified part - every storage call index k - that tests cannot reach. Also: no error value built and dropped in pkg/op (R-discard). Does not decide the HTTP status chosen nor time-outs inside the storage.",
+		Explanation: "Decides, for every call into the pluggable storage from pkg/op (all invoke-mode calls on the interfaces declared in storage.go, keys.go, discovery.go, verifier_jwt_profile.go - found through go/types, not by name): the call's error result is consumed (never an expression statement, never assigned to _, never lost in go/defer), and in no path state that carries fail(<that call>) a grant sink is reachable in the same function: no token-creating call, no success document written, no Active=true store, no success return of a status-returning function. Error edges classified by errors.Is against a sentinel (ErrInvalidRefreshToken in revocation) are explicit decisions and accepted; two reviewed fall-backs are listed with reasons. Together with C09's respond-once/stop-after-error typestate (the error responder terminates the handler) this is the universally quantified part - every storage call index k - that tests cannot reach. Also: no error value built and dropped in pkg/op (R-discard). Does not decide the HTTP status chosen nor time-outs inside the storage. Round 3: error redirects go only to a validated URI (obligations shared with C03, incl. the error normaliser keeping an *oidc.Error as it is); errors stored and never examined in pkg/op are reported (E5.R-examined); error responders answer with the error they were given.",
 		RuleText:    "obligation = (storage call site, function); non-trivial always (each needs the error-edge reachability argument); distinct by function + callee + ordinal",
 		Assumptions: []string{"facts about a failed call are not invalidated before the sink by reassigning the call's arguments (the engine would drop the fail fact; such sites would be missed, none exist on this tree)", "callers of helper functions treat a returned error as failure (checked where the caller is in pkg/op by the same rule)"},
 		Trusted:     []string{"go/types, go/cfg (x/tools v0.50.0)"},
